@@ -10,9 +10,10 @@ Section RowCodec.
   Variable c : list str.
   Hypothesis c_len : length c = 96%nat.
 
-  Notation step := (row_step unit unit (cd_decode c) None).
-  Notation fold := (row_fold unit unit (cd_decode c) None).
+  Notation step := (row_step unit unit unit (ttx_dec c) None).
+  Notation fold := (row_fold unit unit unit (ttx_dec c) None).
   Notation app_item := (append_item unit unit None).
+  Notation mkR l li b := (mkRowst l li b tt).
 
   Ltac cmp v :=
     repeat match goal with
@@ -40,13 +41,13 @@ Section RowCodec.
   Qed.
 
   (* outside the box: a cell that is neither a spacing attribute nor a start box changes nothing *)
-  Lemma step_outside l li v : is_attr v = false -> v <> 11 -> step (mkRowst l li false) v = Ok (mkRowst l li false).
+  Lemma step_outside l li v : is_attr v = false -> v <> 11 -> step (mkR l li false) v = Ok (mkR l li false).
   Proof.
-    intros Ha H11. apply is_attr_false in Ha. unfold row_step. cbn [rs_started rs_l rs_li].
+    intros Ha H11. apply is_attr_false in Ha. unfold row_step. cbn [rs_started rs_l rs_li rs_d].
     cmp v; cbn [t_is_some orb andb negb]; reflexivity.
   Qed.
   Lemma fold_outside l li vs : forallb (fun v => negb (is_attr v) && negb (v =? 11)) vs = true ->
-    fold (mkRowst l li false) vs = Ok (mkRowst l li false).
+    fold (mkR l li false) vs = Ok (mkR l li false).
   Proof.
     induction vs as [|v r IH]; intros H; cbn [row_fold]; [reflexivity|].
     cbn [forallb] in H. apply andb_true_iff in H. destruct H as [Hv Hr]. apply andb_true_iff in Hv. destruct Hv as [H1 H2].
@@ -55,33 +56,36 @@ Section RowCodec.
   Qed.
 
   (* a start box *)
-  Lemma step_box l txt s b : step (mkRowst l (mkTitem txt s) b) 11 = Ok (mkRowst l (mkTitem txt s) true).
+  Lemma step_box l txt s b : step (mkR l (mkTitem txt s) b) 11 = Ok (mkR l (mkTitem txt s) true).
   Proof. unfold row_step. cbn. rewrite app_nil_r. reflexivity. Qed.
-  Lemma fold_boxes l txt s k : fold (mkRowst l (mkTitem txt s) true) (repeat 11 k) = Ok (mkRowst l (mkTitem txt s) true).
+  Lemma fold_boxes l txt s k : fold (mkR l (mkTitem txt s) true) (repeat 11 k) = Ok (mkR l (mkTitem txt s) true).
   Proof. induction k as [|k IH]; cbn [repeat row_fold]; [reflexivity|]. rewrite step_box. cbn [bind]. exact IH. Qed.
   (* an end box *)
-  Lemma step_endbox l li b : step (mkRowst l li b) 10 = Ok (mkRowst l li false).
+  Lemma step_endbox l li b : step (mkR l li b) 10 = Ok (mkR l li false).
   Proof. unfold row_step. cbn. reflexivity. Qed.
 
   (* a text cell inside the box *)
-  Lemma decode_text v : is_text_cell v = true -> cd_decode c v = Ok (nth (N.to_nat (v - 32)) c []).
+  Lemma is_text_cell_cases v : is_text_cell v = true -> 8 <= v /\ (v < 12 \/ 15 < v) /\ v <> 10 /\ v < 128.
   Proof.
-    unfold is_text_cell. intros H. apply andb_true_iff in H. destruct H as [H1 H2]. apply N.leb_le in H1. apply N.ltb_lt in H2.
-    unfold cd_decode. destruct (N.ltb_spec v 32); [lia|].
+    unfold is_text_cell. intros H. apply andb_true_iff in H. destruct H as [H H3]. apply andb_true_iff in H. destruct H as [H1 H2].
+    apply negb_true_iff in H1. apply is_attr_false in H1. apply negb_true_iff in H2. apply N.eqb_neq in H2. apply N.ltb_lt in H3. lia.
+  Qed.
+  Lemma decode_text v : v < 128 -> ttx_dec c tt v = Ok (cell_text c v, tt).
+  Proof.
+    intros H2. unfold ttx_dec, cd_decode, cell_text. destruct (N.ltb_spec v 32); [reflexivity|].
     destruct (nth_error c (N.to_nat (v - 32))) as [x|] eqn:E.
     - rewrite (nth_error_nth _ _ _ E). reflexivity.
     - apply nth_error_None in E. lia.
   Qed.
   Lemma step_text l txt s v : is_text_cell v = true ->
-    step (mkRowst l (mkTitem txt s) true) v = Ok (mkRowst l (mkTitem (txt ++ nth (N.to_nat (v - 32)) c []) s) true).
+    step (mkR l (mkTitem txt s) true) v = Ok (mkR l (mkTitem (txt ++ cell_text c v) s) true).
   Proof.
-    intros H. pose proof (decode_text v H) as D. unfold is_text_cell in H. apply andb_true_iff in H. destruct H as [H1 H2].
-    apply N.leb_le in H1. apply N.ltb_lt in H2.
-    unfold row_step. cbn [rs_started rs_l rs_li ti_text ti_sty].
-    cmp v; cbn [t_is_some orb andb negb]. rewrite D. reflexivity.
+    intros H. apply is_text_cell_cases in H. destruct H as (H1 & H2 & H3 & H4). pose proof (decode_text v H4) as D.
+    unfold row_step. cbn [rs_started rs_l rs_li rs_d ti_text ti_sty].
+    cmp v; cbn [t_is_some orb andb negb]; rewrite D; reflexivity.
   Qed.
   Lemma fold_text l s vs : forall txt, forallb is_text_cell vs = true ->
-    fold (mkRowst l (mkTitem txt s) true) vs = Ok (mkRowst l (mkTitem (txt ++ seg_text c vs) s) true).
+    fold (mkR l (mkTitem txt s) true) vs = Ok (mkR l (mkTitem (txt ++ seg_text c vs) s) true).
   Proof.
     induction vs as [|v r IH]; intros txt H; cbn [row_fold seg_text flat_map]; [rewrite app_nil_r; reflexivity|].
     cbn [forallb] in H. apply andb_true_iff in H. destruct H as [Hv Hr].
@@ -93,9 +97,9 @@ Section RowCodec.
 
   (* a spacing attribute inside the box while no text is pending: only the style changes *)
   Lemma step_attr_empty l s v (b : bool) : is_attr v = true ->
-    step (mkRowst l (mkTitem [] s) b) v = Ok (mkRowst l (mkTitem [] (apply_code s v)) b).
+    step (mkR l (mkTitem [] s) b) v = Ok (mkR l (mkTitem [] (apply_code s v)) b).
   Proof.
-    intros H. apply is_attr_true in H. unfold row_step, apply_code. cbn [rs_started rs_l rs_li ti_text ti_sty].
+    intros H. apply is_attr_true in H. unfold row_step, apply_code. cbn [rs_started rs_l rs_li rs_d ti_text ti_sty].
     destruct s as [col dh ds dw [ ]]. cbn [ts_color ts_dh ts_ds ts_dw ts_x].
     destruct H as [H|H].
     - cmp v. cbn [t_is_some orb andb negb fresh_ne opt_eqb t_opt_or].
@@ -109,7 +113,7 @@ Section RowCodec.
   Qed.
   (* in front of the box: attributes set the style, everything else but a start box is ignored *)
   Lemma fold_pre vs : forall s, forallb junk_cell vs = true ->
-    fold (mkRowst [] (mkTitem [] s) false) vs = Ok (mkRowst [] (mkTitem [] (fold_left apply_code (filter is_attr vs) s)) false).
+    fold (mkR [] (mkTitem [] s) false) vs = Ok (mkR [] (mkTitem [] (fold_left apply_code (filter is_attr vs) s)) false).
   Proof.
     induction vs as [|v r IH]; intros s H; cbn [row_fold filter fold_left]; [reflexivity|].
     cbn [forallb] in H. apply andb_true_iff in H. destruct H as [Hv Hr]. unfold junk_cell in Hv. apply negb_true_iff in Hv. apply N.eqb_neq in Hv.
@@ -118,7 +122,7 @@ Section RowCodec.
     - rewrite (step_outside [] (mkTitem [] s) v A Hv). cbn [bind]. apply IH. exact Hr.
   Qed.
   Lemma fold_attrs_empty l vs : forall s, forallb is_attr vs = true ->
-    fold (mkRowst l (mkTitem [] s) true) vs = Ok (mkRowst l (mkTitem [] (fold_left apply_code vs s)) true).
+    fold (mkR l (mkTitem [] s) true) vs = Ok (mkR l (mkTitem [] (fold_left apply_code vs s)) true).
   Proof.
     induction vs as [|v r IH]; intros s H; cbn [row_fold fold_left]; [reflexivity|].
     cbn [forallb] in H. apply andb_true_iff in H. destruct H as [Hv Hr].
@@ -127,9 +131,9 @@ Section RowCodec.
 
   (* an attribute that begins a new run: the pending text is flushed *)
   Lemma step_attr_effective l txt s v : is_attr v = true -> code_effective s v = true ->
-    step (mkRowst l (mkTitem txt s) true) v = Ok (mkRowst (app_item l (mkTitem txt s)) (mkTitem [] (apply_code s v)) true).
+    step (mkR l (mkTitem txt s) true) v = Ok (mkR (app_item l (mkTitem txt s)) (mkTitem [] (apply_code s v)) true).
   Proof.
-    intros H E. apply is_attr_true in H. unfold row_step, apply_code, code_effective in *. cbn [rs_started rs_l rs_li ti_text ti_sty].
+    intros H E. apply is_attr_true in H. unfold row_step, apply_code, code_effective in *. cbn [rs_started rs_l rs_li rs_d ti_text ti_sty].
     destruct s as [col dh ds dw [ ]]. cbn [ts_color ts_dh ts_ds ts_dw ts_x] in *.
     destruct H as [H|H].
     - revert E. cmp v. cbn [t_is_some orb andb negb fresh_ne opt_eqb t_opt_or]. intros E.
@@ -138,54 +142,69 @@ Section RowCodec.
       destruct Hv as [-> | [-> | [-> | ->]]]; cbn; destruct col, dh, ds, dw; reflexivity.
   Qed.
 
-  Definition run_of (txt : str) (s : tsty unit) : list trunT :=
-    match trim_space txt with
-    | [] => []
-    | t => [mkTrun t s (count_lead 32 txt) (count_lead 32 (rev txt))]
-    end.
   Lemma app_item_run l txt s : app_item l (mkTitem txt s) = l ++ run_of txt s.
   Proof.
     destruct s as [a b d e [ ]]. unfold append_item, run_of. cbn [ti_text ti_sty ts_color ts_dh ts_ds ts_dw ts_x].
     destruct (trim_space txt) as [|x r]; [rewrite app_nil_r; reflexivity | reflexivity].
   Qed.
 
-  Definition seg_bytes (g : rseg) : list N := sg_codes g ++ sg_cells g.
-
-  (* one segment *)
-  Lemma fold_seg l txt s g (first : bool) :
-    forallb is_attr (sg_codes g) = true -> forallb is_text_cell (sg_cells g) = true ->
-    (first || match sg_codes g with v :: _ => code_effective s v | [] => false end) = true ->
-    (first = true -> txt = []) ->
-    fold (mkRowst l (mkTitem txt s) true) (seg_bytes g) =
-    Ok (mkRowst (l ++ run_of txt s) (mkTitem (seg_text c (sg_cells g)) (fold_left apply_code (sg_codes g) s)) true).
+  (* an attribute that repeats the colour in force (no size attribute in force) changes nothing *)
+  Lemma ineffective_cases s v : is_attr v = true -> code_effective s v = false ->
+    v < 8 /\ ts_color s = Some v /\ ts_dh s = None /\ ts_ds s = None /\ ts_dw s = None.
   Proof.
-    intros Ha Ht He Hf. unfold seg_bytes. rewrite fold_app.
-    assert (Hcodes : fold (mkRowst l (mkTitem txt s) true) (sg_codes g) =
-                     Ok (mkRowst (l ++ run_of txt s) (mkTitem [] (fold_left apply_code (sg_codes g) s)) true)).
-    { destruct first.
-      - rewrite (Hf eq_refl). unfold run_of. cbn [trim_space]. replace (trim_space []) with (@nil N) by reflexivity.
-        rewrite app_nil_r. apply fold_attrs_empty. exact Ha.
-      - cbn [orb] in He. destruct (sg_codes g) as [|v r]; [discriminate|].
-        cbn [forallb] in Ha. apply andb_true_iff in Ha. destruct Ha as [Hv Hr].
-        cbn [row_fold fold_left]. rewrite (step_attr_effective l txt s v Hv He). cbn [bind].
-        rewrite app_item_run. apply fold_attrs_empty. exact Hr. }
-    rewrite Hcodes. cbn [bind]. rewrite (fold_text _ _ _ [] Ht). reflexivity.
+    intros Ha He. apply is_attr_true in Ha. unfold code_effective in He.
+    repeat (apply orb_false_iff in He; destruct He as [He ?]).
+    apply N.leb_gt in He. destruct Ha as [Ha|Ha]; [|lia]. split; [exact Ha|].
+    match goal with H : negb (opt_eqb _ _) = false |- _ => apply negb_false_iff in H; rename H into Hc end.
+    destruct (ts_color s) as [k|]; [|discriminate]. cbn [opt_eqb] in Hc. apply N.eqb_eq in Hc. subst k.
+    destruct (ts_dh s), (ts_ds s), (ts_dw s); try discriminate. repeat split.
+  Qed.
+  Lemma apply_ineffective s v : is_attr v = true -> code_effective s v = false -> apply_code s v = s.
+  Proof.
+    intros Ha He. destruct (ineffective_cases s v Ha He) as (Hv & Hc & Hh & Hs & Hw). unfold apply_code.
+    destruct (N.ltb_spec v 8); [|lia]. destruct s as [col dh ds dw [ ]]. cbn in *. subst. reflexivity.
+  Qed.
+  Lemma step_attr_ineffective l txt s v : is_attr v = true -> code_effective s v = false ->
+    step (mkR l (mkTitem txt s) true) v = Ok (mkR l (mkTitem txt s) true).
+  Proof.
+    intros Ha He. destruct (ineffective_cases s v Ha He) as (Hv & Hc & Hh & Hs & Hw).
+    unfold row_step. cbn [rs_started rs_l rs_li rs_d ti_text ti_sty]. rewrite Hc, Hh, Hs, Hw.
+    cmp v. cbn [t_is_some orb andb negb fresh_ne opt_eqb]. rewrite N.eqb_refl. reflexivity.
   Qed.
 
-  (* all segments: the pending run and the runs already appended *)
-  Lemma fold_segs segs : forall l txt s first, segs_ok first s segs = true -> (first = true -> txt = []) ->
-    exists l' txt' s', fold (mkRowst l (mkTitem txt s) true) (flat_map seg_bytes segs) = Ok (mkRowst l' (mkTitem txt' s') true)
-                       /\ l' ++ run_of txt' s' = l ++ run_of txt s ++ seg_runs c s segs.
+  Definition seg_bytes (g : rseg) : list N := sg_codes g ++ sg_cells g.
+
+  (* a group of attributes *)
+  Lemma fold_codes l cs : forall txt s, forallb is_attr cs = true ->
+    fold (mkR l (mkTitem txt s) true) cs =
+    Ok (if existsb (code_effective s) cs
+        then mkR (l ++ run_of txt s) (mkTitem [] (fold_left apply_code cs s)) true
+        else mkR l (mkTitem txt s) true).
   Proof.
-    induction segs as [|g r IH]; intros l txt s first Hok Hf.
-    - exists l, txt, s. split; [reflexivity|]. cbn [seg_runs]. rewrite app_nil_r. reflexivity.
-    - cbn [segs_ok] in Hok. apply andb_true_iff in Hok. destruct Hok as [Hok Hr]. apply andb_true_iff in Hok. destruct Hok as [Hok He].
-      apply andb_true_iff in Hok. destruct Hok as [Ha Ht].
-      cbn [flat_map]. rewrite fold_app. rewrite (fold_seg l txt s g first Ha Ht He Hf). cbn [bind].
-      destruct (IH (l ++ run_of txt s) (seg_text c (sg_cells g)) (fold_left apply_code (sg_codes g) s) false Hr ltac:(discriminate))
-        as (l' & txt' & s' & E & R).
-      exists l', txt', s'. split; [exact E|]. rewrite R. cbn [seg_runs]. rewrite <- app_assoc. f_equal. f_equal.
-      unfold run_of. destruct (trim_space (seg_text c (sg_cells g))); reflexivity.
+    induction cs as [|v r IH]; intros txt s H; cbn [row_fold existsb fold_left]; [reflexivity|].
+    cbn [forallb] in H. apply andb_true_iff in H. destruct H as [Hv Hr].
+    destruct (code_effective s v) eqn:E; cbn [orb].
+    - rewrite (step_attr_effective l txt s v Hv E). cbn [bind]. rewrite app_item_run. apply fold_attrs_empty. exact Hr.
+    - rewrite (step_attr_ineffective l txt s v Hv E). cbn [bind]. rewrite (apply_ineffective s v Hv E). apply IH. exact Hr.
+  Qed.
+
+  (* all groups: the pending run and the runs already appended *)
+  Lemma fold_segs segs : forall l txt s, segs_ok segs = true ->
+    exists l' txt' s', fold (mkR l (mkTitem txt s) true) (flat_map seg_bytes segs) = Ok (mkR l' (mkTitem txt' s') true)
+                       /\ l' ++ run_of txt' s' = l ++ seg_runs c s txt segs.
+  Proof.
+    induction segs as [|g r IH]; intros l txt s Hok.
+    - exists l, txt, s. split; reflexivity.
+    - unfold segs_ok in Hok. cbn [forallb] in Hok. apply andb_true_iff in Hok. destruct Hok as [Hg Hr].
+      apply andb_true_iff in Hg. destruct Hg as [Ha Ht].
+      cbn [flat_map seg_runs]. rewrite fold_app. unfold seg_bytes at 1. rewrite fold_app. rewrite (fold_codes l (sg_codes g) txt s Ha). cbn [bind].
+      destruct (existsb (code_effective s) (sg_codes g)).
+      + rewrite (fold_text _ _ _ [] Ht). cbn [bind app].
+        destruct (IH (l ++ run_of txt s) (seg_text c (sg_cells g)) (fold_left apply_code (sg_codes g) s) Hr) as (l' & txt' & s' & E & R).
+        exists l', txt', s'. split; [exact E|]. rewrite R. rewrite <- app_assoc. reflexivity.
+      + rewrite (fold_text _ _ _ txt Ht). cbn [bind].
+        destruct (IH l (txt ++ seg_text c (sg_cells g)) s Hr) as (l' & txt' & s' & E & R).
+        exists l', txt', s'. split; [exact E | exact R].
   Qed.
 
   Theorem parse_row_encoded : forall r, rowspec_ok r = true -> ttx_parse_row c (row_cells r) = Ok (row_runs c r).
@@ -197,14 +216,12 @@ Section RowCodec.
     pose proof (fold_pre (rw_pre r) (tsty0 unit tt) Hpre) as Hp. fold (pre_style r) in Hp.
     rewrite Hp. cbn [bind row_fold]. rewrite step_box. cbn [bind]. rewrite fold_app. rewrite fold_boxes. cbn [bind].
     rewrite fold_app.
-    destruct (fold_segs (rw_segs r) [] [] (pre_style r) true Hsegs ltac:(reflexivity)) as (l' & txt' & s' & E & R).
+    destruct (fold_segs (rw_segs r) [] [] (pre_style r) Hsegs) as (l' & txt' & s' & E & R).
     replace (flat_map (fun s => sg_codes s ++ sg_cells s) (rw_segs r)) with (flat_map seg_bytes (rw_segs r)) by reflexivity.
-    rewrite E. cbn [bind].
-    assert (Hfin : l' ++ run_of txt' s' = seg_runs c (pre_style r) (rw_segs r)).
-    { rewrite R. unfold run_of at 1. replace (trim_space []) with (@nil N) by reflexivity. reflexivity. }
+    rewrite E. cbn [bind]. cbn [app] in R.
     destruct (rw_end r) as [j|].
     - cbn [row_fold]. rewrite step_endbox. cbn [bind]. rewrite (fold_outside _ _ _ Hend). cbn [bind rs_l rs_li].
-      rewrite app_item_run. rewrite Hfin. reflexivity.
-    - cbn [row_fold bind rs_l rs_li]. rewrite app_item_run. rewrite Hfin. reflexivity.
+      rewrite app_item_run. rewrite R. reflexivity.
+    - cbn [row_fold bind rs_l rs_li]. rewrite app_item_run. rewrite R. reflexivity.
   Qed.
 End RowCodec.
